@@ -68,6 +68,18 @@ def gen(chk):
             cuts = tuple(sorted(rng.sample(range(1, len(data)), rng.randint(1, min(6, len(data) - 1)))))
         pre = cfg.req_prefix() if kind == "req" else cfg.rsp_prefix()
         cases.append(pre + " " + G.frag_arg(data, cuts))
+    # boundary values of the length fields: every length a ptrdiff_t / size_t can hold that no allocation can, announced
+    # and then followed by a few bytes of body in the same and in a later read
+    huge = [2 ** 31 - 1, 2 ** 31, 2 ** 32, 2 ** 32 + 1, 2 ** 48, 2 ** 62, 2 ** 63 - 2, 2 ** 63 - 1, 2 ** 63, 2 ** 64 - 1, 2 ** 64]
+    for v in huge:
+        for kind in ("req", "rsp"):
+            for cfg in (G.rand_cfg(rng), G.rand_cfg(rng)):
+                head = (b"POST /u HTTP/1.1\r\nHost: h\r\n" if kind == "req" else b"HTTP/1.1 200 OK\r\n")
+                for framing in (b"Content-Length: %d\r\n\r\n" % v, b"Transfer-Encoding: chunked\r\n\r\n%x\r\n" % v, b"Transfer-Encoding: chunked\r\n\r\n%x;e=1\r\n" % v):
+                    data = head + framing + b"xyz"
+                    pre = cfg.req_prefix() if kind == "req" else cfg.rsp_prefix()
+                    for cuts in ((), (len(data) - 3,), (len(data) - 3, len(data) - 2), (len(head), len(data) - 1)):
+                        cases.append(pre + " " + G.frag_arg(data, cuts))
     return cases
 
 
@@ -83,6 +95,8 @@ def run(chk):
             chk.violation("crash / sanitizer report / exception on arbitrary bytes: " + io[:160], {"case": c, "impl": io}, True, "memory-error-or-exception")
             continue
         calls = p[0]
+        if "OVERRUN" in calls:
+            chk.violation("receive() moved the iterator beyond the end of the read (it looked at bytes behind its input)", {"case": c, "impl": io[:300]}, True, "read-behind-the-end")
         if "LOOP" in calls:
             chk.violation("the read loop does not finish in a linear number of steps", {"case": c, "impl": io[:300]}, True, "loop-not-linear")
         frags = c.split(" ")[-1].split(",")
@@ -122,6 +136,6 @@ def replay(body):
     hb, _ = vlib.build_harness("h_stream", "asan")
     out, _ = vlib.run_cases_resilient(hb, [case])
     print("case: %s\nimpl: %s" % (case, out[0][:300] if out else "?"))
-    bad = (not out) or G.parse_out(out[0]) is None or "LOOP" in out[0]
+    bad = (not out) or G.parse_out(out[0]) is None or "LOOP" in out[0] or "OVERRUN" in out[0]
     print("property violated" if bad else "property holds on this case")
     return 1 if bad else 0
